@@ -679,6 +679,7 @@ class BaseConnector:
             if self._limit_per_host:
                 self._acquired_per_host[key].add(placeholder)
 
+            created: ResponseHandler | None = None
             try:
                 # Traces are done inside the try block to ensure that the
                 # that the placeholder is still cleaned up if an exception
@@ -686,12 +687,16 @@ class BaseConnector:
                 if traces:
                     for trace in traces:
                         await trace.send_connection_create_start()
-                proto = await self._create_connection(req, traces, timeout)
+                proto = created = await self._create_connection(req, traces, timeout)
                 if traces:
                     for trace in traces:
                         await trace.send_connection_create_end()
             except BaseException:
                 self._release_acquired(key, placeholder)
+                if created is not None:
+                    # cancelled/failed in the create_end trace: nobody will
+                    # ever own this connection, do not leave it open
+                    created.close()
                 raise
             else:
                 if self._closed:
@@ -796,6 +801,8 @@ class BaseConnector:
                             await trace.send_connection_reuseconn()
                         except BaseException:
                             self._release_acquired(key, proto)
+                            # taken out of the pool and owned by nobody now
+                            proto.close()
                             raise
                 return Connection(self, key, proto, self._loop)
 
